@@ -819,8 +819,9 @@ class CFG:
         if isinstance(other, regular_expression.Regex):
             other = other.to_epsilon_nfa().to_deterministic()
         elif isinstance(other, FiniteAutomaton):
-            if not other.is_deterministic():
-                other = other.to_deterministic()
+            # Also needed when other.is_deterministic(): only a DFA object
+            # gives its next states as a list
+            other = other.to_deterministic()
         else:
             raise NotImplementedError
         if other.is_empty():
